@@ -39,6 +39,12 @@ theorem newTasks_append (s s' : St) (l : List (Nat × Task)) (h : s'.tasks = s.t
 
 /-! ## payment, put, clean-up -/
 
+/-- a call that spawns nothing but takes an id (the in-place metrics flush) -/
+theorem KeyInv.bump (h : KeyInv s w) (p : Nat) (hh : Option Nat) :
+    KeyInv { s with payments := p, hist := hh, nextId := s.nextId + 1 } w :=
+  ⟨h.tsorted, fun e he => Nat.lt_succ_of_lt (h.tlt e he), fun e he => Nat.lt_succ_of_lt (h.nlt e he), h.nnodup, h.disj,
+   h.nsorted, h.nbefore, h.delBefore, h.absent, h.present⟩
+
 theorem KeyInv.addFlush (h : KeyInv s w) (n p : Nat) :
     KeyInv { s with payments := p, tasks := s.tasks ++ [(s.nextId, .flush n)], nextId := s.nextId + 1 } w := by
   have hmem : ∀ e, e ∈ s.tasks ++ [(s.nextId, Task.flush n)] ↔ e ∈ s.tasks ∨ e = (s.nextId, Task.flush n) := by
@@ -256,10 +262,14 @@ theorem KeyInv.step (cfg : Cfg) (dist : Nat → Nat) (h : KeyInv s w) (op : Op) 
     exact ⟨h.tsorted, h.tlt, h.nlt, h.nnodup, h.disj, h.nsorted, h.nbefore, h.delBefore, h.absent, h.present⟩
   | cleanup => exact h.cleanup cfg dist hn
   | payment =>
-    have hnt : newTasks s (SafeNet.Store.step cfg dist s .payment).1 = [(s.nextId, Task.flush (s.payments + 1))] := by
-      apply newTasks_append; simp [SafeNet.Store.step, payment]
-    simp only [wantStep, spawns, ↓reduceIte, hnt, List.foldl_cons, List.foldl_nil, applyTask]
-    exact h.addFlush (s.payments + 1) (s.payments + 1)
+    -- the metrics flush is written in place: no task is appended, the call only takes an id
+    have hs : (SafeNet.Store.step cfg dist s .payment).1 = paymentSync s := by
+      simp [SafeNet.Store.step, payment_eq]
+    have hnt : newTasks s (SafeNet.Store.step cfg dist s .payment).1 = [] := by
+      rw [hs]; simp [newTasks, paymentSync]
+    simp only [wantStep, spawns, ↓reduceIte, hnt, List.foldl_nil]
+    rw [hs]
+    exact h.bump _ _
   | crash t => simp [isCrash] at hc
 
 /-! ## histories -/
@@ -318,11 +328,9 @@ theorem KeyInv.runFrom (cfg : Cfg) (dist : Nat → Nat) (ops : List Op) (h : Key
     exact ih (h.step cfg dist op hc h1) h2
 
 theorem KeyInv.init (cfg : Cfg) (dist : Nat → Nat) : KeyInv (SafeNet.Store.init cfg dist) (fun _ => none) := by
-  refine ⟨by simp [SafeNet.Store.init, restart], ?_, ?_, by simp [SafeNet.Store.init, restart], ?_, by simp [SafeNet.Store.init, restart], ?_, ?_, ?_, ?_⟩
+  refine ⟨by simp [SafeNet.Store.init, restart, flushSync], ?_, ?_, by simp [SafeNet.Store.init, restart], ?_, by simp [SafeNet.Store.init, restart], ?_, ?_, ?_, ?_⟩
   · intro e he
-    simp only [SafeNet.Store.init, restart, List.mem_singleton] at he
-    subst he
-    simp [SafeNet.Store.init, restart]
+    simp [SafeNet.Store.init, restart, flushSync] at he
   · intro e he; simp [SafeNet.Store.init, restart] at he
   · intro e he n hn; simp [SafeNet.Store.init, restart] at hn
   · intro j k rt hj; simp [SafeNet.Store.init, restart] at hj
